@@ -29,7 +29,7 @@ ASSUMPTIONS = ["any injective map from time steps to recorded engine columns (th
                "implied normals are compared within the rounding bound of the cumulative sum: 16*eps*(T*max|z| + max|X|/(sigma*sqrt(dt)))",
                "the distributional clauses of the property are not decided by this check (partial claim)"]
 PROBES = ["implied_normals", "noise_stall", "sigma_zero_skeleton", "merton_zero_intensity", "kou_zero_intensity", "instrument_engine",
-          "init_nondefault", "drift_nonzero", "float64", "n_steps_1", "n_steps_2", "horizon_not_multiple_of_dt", "live_instrument", "simulation_aborted_by_sigma_fn"]
+          "init_nondefault", "drift_nonzero", "float64", "n_steps_1", "n_steps_2", "horizon_not_multiple_of_dt", "live_instrument", "simulation_aborted_by_sigma_fn", "compensated_drift_between_jumps"]
 FNS = ["generate_brownian", "generate_geometric_brownian", "generate_merton_jump", "generate_kou_jump", "MertonJumpStock", "KouJumpStock"]
 
 
@@ -51,6 +51,11 @@ def generate(rng):
                 op["jump_mean_up"] = rng.choice([0.02, 0.1])
                 op["jump_mean_down"] = rng.choice([0.05, 0.1])
                 op["jump_up_prob"] = rng.choice([0.0, 0.3, 1.0])
+            if fn in ("generate_merton_jump", "generate_kou_jump", "MertonJumpStock", "KouJumpStock") and rng.chance(0.3):
+                # rare jumps under a stalled engine: every jump-free step moves by exactly the compensated drift
+                # (mu - sigma^2/2 - lambda*m) dt, m = E[e^J - 1] in closed form - no statistics needed
+                op.update({"mode": "zeros", "dt": rng.choice([1 / 250, 1 / 365, 0.002]), "lam": rng.choice([0.5, 1.0, 2.0]),
+                           "n_paths": rng.choice([3, 7]), "n_steps": rng.choice([3, 5, 9, 21])})
             if fn in ("MertonJumpStock", "KouJumpStock"):
                 op["n_steps"] = max(op["n_steps"], 1)
                 if rng.chance(0.5):
@@ -125,6 +130,7 @@ def _execute(program, stats, hist):
         torch.manual_seed(op["torch_seed"])
         if name == "engine":
             sigma, mu = op["sigma"], op["mu"]
+            lam = float(op.get("lam", 0.0))
             eng = SimEngine(op["mode"], op["seed"])
             init = op["init"]
             kw = {}
@@ -140,11 +146,11 @@ def _execute(program, stats, hist):
                     out = getattr(st, fn)(n, T, sigma=sigma, mu=mu, dt=dtv, dtype=dtype, engine=eng, **kw)
                     comp = 0.0
                 elif fn == "generate_merton_jump":
-                    out = st.generate_merton_jump(n, T, sigma=sigma, mu=mu, jump_per_year=0.0, jump_mean=op["jump_mean"],
+                    out = st.generate_merton_jump(n, T, sigma=sigma, mu=mu, jump_per_year=lam, jump_mean=op["jump_mean"],
                                                   jump_std=op["jump_std"], dt=dtv, dtype=dtype, engine=eng, **kw)
                     stats.probe("merton_zero_intensity")
                 elif fn == "generate_kou_jump":
-                    out = st.generate_kou_jump(n, T, sigma=sigma, mu=mu, jump_per_year=0.0, jump_mean_up=op["jump_mean_up"],
+                    out = st.generate_kou_jump(n, T, sigma=sigma, mu=mu, jump_per_year=lam, jump_mean_up=op["jump_mean_up"],
                                                jump_mean_down=op["jump_mean_down"], jump_up_prob=op["jump_up_prob"], dt=dtv,
                                                dtype=dtype, engine=eng, **kw)
                     stats.probe("kou_zero_intensity")
@@ -153,10 +159,10 @@ def _execute(program, stats, hist):
                     frac = [0.0, 0.0, 0.4, 0.75][op.get("seed", op.get("torch_seed", 0)) % 4] if T >= 2 else 0.0
                     if live is None:
                         if fn == "MertonJumpStock":
-                            inst = pfi.MertonJumpStock(mu=mu, sigma=sigma, jump_per_year=0.0, jump_mean=op["jump_mean"], jump_std=op["jump_std"],
+                            inst = pfi.MertonJumpStock(mu=mu, sigma=sigma, jump_per_year=lam, jump_mean=op["jump_mean"], jump_std=op["jump_std"],
                                                        dt=dtv, dtype=dtype, engine=eng)
                         else:
-                            inst = pfi.KouJumpStock(sigma=sigma, mu=mu, jump_per_year=0.0, jump_mean_up=op["jump_mean_up"],
+                            inst = pfi.KouJumpStock(sigma=sigma, mu=mu, jump_per_year=lam, jump_mean_up=op["jump_mean_up"],
                                                     jump_mean_down=op["jump_mean_down"], jump_up_prob=op["jump_up_prob"], dt=dtv,
                                                     dtype=dtype, engine=eng)
                     else:
@@ -175,7 +181,7 @@ def _execute(program, stats, hist):
                         if live["read_volatility"]:
                             inst.volatility, inst.variance
                         # ... re-parameterised by plain attribute assignment and cast
-                        inst.sigma, inst.mu, inst.jump_per_year, inst.dt, inst.engine = sigma, mu, 0.0, dtv, eng
+                        inst.sigma, inst.mu, inst.jump_per_year, inst.dt, inst.engine = sigma, mu, lam, dtv, eng
                         if fn == "MertonJumpStock":
                             inst.jump_mean, inst.jump_std = op["jump_mean"], op["jump_std"]
                         else:
@@ -209,7 +215,26 @@ def _execute(program, stats, hist):
             x0 = (1.0 if geometric else 0.0) if init is None else float(torch.tensor(init, dtype=torch.float64).to(wd).double())
             X = out.double()
             t = torch.arange(T, dtype=torch.float64) * dtv
-            if op["mode"] == "zeros":
+            if op["mode"] == "zeros" and lam > 0:
+                stats.fault("F11_noise_stall")
+                if fn in ("generate_merton_jump", "MertonJumpStock"):
+                    m_comp = math.exp(op["jump_mean"] + op["jump_std"] ** 2 / 2) - 1
+                else:
+                    eu, ed, pu = 1 / op["jump_mean_up"], 1 / op["jump_mean_down"], op["jump_up_prob"]
+                    m_comp = (1 - pu) * ed / (ed + 1) + pu * eu / (eu - 1) - 1
+                c = (mu - sigma ** 2 / 2 - lam * m_comp) * dtv
+                stats.checks += 1
+                if T >= 2 and bool((X > 0).all()):
+                    inc = X.log().diff(dim=1)
+                    tol = 16 * eps * (X.log().abs().max() + 1.0) + 4 * eps * abs(c) * T
+                    hit = int(((inc - c).abs() <= tol).sum())
+                    stats.probe("compensated_drift_between_jumps")
+                    if hit == 0:
+                        raise Violation(ID, "compensated_drift", site, {
+                            "increments": inc[0], "expected_jump_free_increment": c, "compensator_m": m_comp, "op": op,
+                            "note": "with the engine stalled no step moves by (mu - sigma^2/2 - lambda*m)*dt"}, seq)
+                    stats.hazard((fn, "zeros+jumps", sigma, mu, dtv, T, str(wd), lam))
+            elif op["mode"] == "zeros":
                 # F11 noise stall: the deterministic skeleton of the SDE
                 stats.fault("F11_noise_stall")
                 stats.probe("noise_stall")
